@@ -265,8 +265,8 @@ func (chain *groupChain) remove(group *types.Group) bool {
 	}
 	chain.groups.Delete(group.Id)
 	chain.groups.Put([]byte(lastGroupKey), preGroup.Id)
-	chain.groups.Put(generateKey(chain.count), preGroup.Id)
 	chain.count--
+	chain.groups.Delete(generateKey(chain.count))
 	chain.groups.Put([]byte(groupCountKey), utility.UInt64ToByte(chain.count))
 	chain.lastGroup = preGroup
 	if err := mysql.DeleteGroup(group.Id); err != nil {
